@@ -193,3 +193,139 @@ def run(run, P):
         run.shortfalls.append('R-CNT-CON: only %d writers of con_active found' % nw)
     for n in TRANSMITTERS:
         run.require(P.has(n) or run.fixture_mode, 'anchor function %s() of R-CNT-CON not found' % n)
+
+
+# ---------------------------------------------------------------------------------------------------------------
+REMOVE = 'coap_remove_from_queue'
+DELETE = 'coap_delete_node_lkd'
+
+
+def run_dequeue(run, P):
+    """(e) the other direction of (b): a Confirmable that is taken out of the send queue for good is un-counted.
+    In every function that calls coap_remove_from_queue(.., &V): on each path on which V may hold the removed node and
+    coap_delete_node_lkd(V) is reached (the exchange is over: the node is not re-queued), con_active was lowered after the
+    removal, or is known to be 0, or V is known NULL.  Otherwise the counter stays up although nothing is in flight and,
+    with the count at NSTART, everything held in the delay queue is never sent."""
+    run.rule('R-CNT-CON')
+    n = 0
+    CON = P.const_named('COAP_MESSAGE_CON')
+    for f in sorted(P.lib_funcs(), key=lambda f: f['name']):
+        name = f['name']
+        outs = set()
+        rsites = []
+        for b, ev in P.events(f):
+            t = ev['e']
+            if t.get('k') == 'call' and t.get('fn') == REMOVE and len(t.get('a', [])) == 4:
+                a = strip(t['a'][3])
+                if isinstance(a, dict) and a.get('k') == 'un' and a.get('op') == '&' and ap(a['e']):
+                    outs.add(ap(a['e']))
+                    rsites.append(ev)
+        if not outs or name == REMOVE:
+            continue
+        rsites.sort(key=lambda ev: (int(ev['loc'].rsplit(':', 1)[1]), ev.get('col', 0)))
+        rord = dict((id(ev), i + 1) for i, ev in enumerate(rsites))
+
+        def is_rule_event(ev):
+            t = ev['e']
+            if t.get('k') == 'call' and t.get('fn') in (REMOVE, DELETE):
+                return True
+            return _write(t)[0] is not None
+        keys, R = relevance(f, is_rule_event, outs)
+        R = set(R) | outs
+        for b in f['blocks']:
+            c = (b.get('term') or {}).get('cond')
+            if c is not None and any(isinstance(x, dict) and x.get('k') == 'mem' and x.get('f') == FIELD for x in walk(c)):
+                keys = set(keys) | {b['id']}
+
+        def on_event(ev, env, ctx):
+            t = ev['e']
+            if t.get('k') == 'call' and t.get('fn') == REMOVE and len(t.get('a', [])) == 4:
+                a = strip(t['a'][3])
+                v = ap(a['e']) if isinstance(a, dict) and a.get('k') == 'un' else None
+                if v in outs:
+                    e = apply_generic(ev, env, R).copy()
+                    st = dict(env.ts.get('rm', ()))
+                    if not str(st.get(v, '')).startswith('pending'):
+                        st[v] = 'pending#%d' % rord.get(id(ev), 0)
+                    e.ts['rm'] = tuple(sorted(st.items()))
+                    # the out-parameter keeps its value when nothing is found: nullness unknown unless it was NULL before
+                    if env.nullf(v) == 'Z':
+                        e.null.pop(v, None)
+                    return [e]
+                return None
+            w, _l = _write(t)
+            if w in ('--', '=0'):
+                e = env.copy()
+                e.ts['rm'] = tuple((k, 'done') for k, _s in env.ts.get('rm', ()))
+                return [apply_generic(ev, e, R)]
+            if t.get('k') == 'call' and t.get('fn') == DELETE and t.get('a'):
+                v = ap(t['a'][0])
+                st = dict(env.ts.get('rm', ()))
+                if v in st:
+                    ok = st[v] == 'done' or env.nullf(v) == 'Z'
+                    run.oblige('R-CNT-CON', ok, '%s:dequeue-accounted:%s' % (name, st[v]))
+                    if not ok:
+                        rs = rsites[int(st[v].split('#')[1]) - 1]
+                        run.violation('R-CNT-CON', name, rs['loc'], 'dequeued-not-uncounted:%s@remove#%s' % (v_name(f, v), st[v].split('#')[1]),
+                                      'the node taken out of the send queue by this coap_remove_from_queue() is deleted (%s) on a path that did not lower session->con_active: ' % ev['loc'].split('/')[-1] +
+                                      'the finished Confirmable stays counted and, at NSTART, the messages held in the delay queue are never sent', ctx.path())
+                    e = env.copy()
+                    st.pop(v, None)
+                    e.ts['rm'] = tuple(sorted(st.items()))
+                    return [apply_generic(ev, e, R)]
+            return None
+
+        def on_branch(b, s, env, ctx):
+            term = b.get('term') or {}
+            c = term.get('cond')
+            if c is None or len(b['succ']) != 2 or not env.ts.get('rm'):
+                return env
+            truth = s == b['succ'][0]
+            c = strip(c)
+            while isinstance(c, dict) and c.get('k') == 'un' and c.get('op') == '!':
+                c = strip(c['e'])
+                truth = not truth
+            zero = None
+            if isinstance(c, dict) and c.get('k') == 'mem' and c.get('f') == FIELD:
+                zero = not truth
+            elif isinstance(c, dict) and c.get('k') == 'bin' and c.get('op') in ('==', '!=', '>') and const_int(c['r']) == 0 and \
+                    isinstance(strip(c['l']), dict) and strip(c['l']).get('k') == 'mem' and strip(c['l']).get('f') == FIELD:
+                zero = truth if c['op'] == '==' else not truth
+            if zero:
+                e = env.copy()
+                e.ts['rm'] = tuple((k, 'done') for k, _s in env.ts.get('rm', ()))
+                return e
+            # V->pdu->type == COAP_MESSAGE_CON known false: the removed node was not a Confirmable, nothing was counted for it
+            if isinstance(c, dict) and c.get('k') == 'bin' and c.get('op') in ('==', '!=') and const_int(c['r']) == CON:
+                l = strip(c['l'])
+                if isinstance(l, dict) and l.get('k') == 'mem' and l.get('f') == 'type':
+                    base = l
+                    while isinstance(base, dict) and base.get('k') == 'mem':
+                        base = strip(base['b'])
+                    v = ap(base)
+                    iscon = truth if c['op'] == '==' else not truth
+                    if v in outs and not iscon:
+                        e = env.copy()
+                        e.ts['rm'] = tuple((k, ('done' if k == v else st_)) for k, st_ in env.ts.get('rm', ()))
+                        return e
+            return env
+        for v in sorted(outs):
+            n += 1
+            run.instance('R-CNT-CON', '%s: node removed into %s' % (name, v_name(f, v)))
+        ctx = solve(f, Env({'rm': ()}), on_event, None, keys, R, key_fn=lambda e: (e.ts.get('rm'), tuple(e.nullf(v) for v in sorted(outs))), on_branch=on_branch, max_envs=512)
+        run.stats['cnt_dequeue_solver_steps'] += ctx.steps
+    run.require(n >= 2 or run.fixture_mode, 'R-CNT-CON(e): fewer than 2 functions remove a node from the send queue into a variable')
+
+
+def v_name(f, v):
+    for p in f['params']:
+        if 'v%d' % p['id'] == v:
+            return p.get('n') or p.get('name') or v
+    for b in f['blocks']:
+        for ev in b['elems']:
+            t = ev['e']
+            if t.get('k') == 'decl':
+                for d in t['d']:
+                    if 'v%d' % d['id'] == v:
+                        return d.get('n', v)
+    return v
